@@ -4,12 +4,16 @@ use serde_json::Value;
 
 pub mod c01;
 pub mod c02;
+pub mod c07;
+pub mod c13;
 pub mod c17;
 
 pub fn run(ctx: &Ctx, sh: &mut Shard) {
     match ctx.prop.as_str() {
         "C01" => c01::run(ctx, sh),
         "C02" => c02::run(ctx, sh),
+        "C07" => c07::run(ctx, sh),
+        "C13" => c13::run(ctx, sh),
         "C17" => c17::run(ctx, sh),
         p => {
             eprintln!("no monitor for {p}");
@@ -21,6 +25,8 @@ pub fn replay(v: &Value, sh: &mut Shard) {
     match v["property"].as_str().unwrap_or("") {
         "C01" => c01::replay(v, sh),
         "C02" => c02::replay(v, sh),
+        "C07" => c07::replay(v, sh),
+        "C13" => c13::replay(v, sh),
         "C17" => c17::replay(v, sh),
         p => {
             eprintln!("no replay for {p}");
